@@ -70,7 +70,7 @@ CODE_TEXT = {1: "implementation value differs from the specified value", 2: "imp
 REGION_SIGS = {1: "seq-collision", 2: "bytes-gap", 3: "sugar-tuple-ill-typed"}
 
 
-def judge(run, cases, outs, codes, fails, oracle, value_codes=(1, 2, 3), corr_codes=(4, 5, 6), skip_regions=False):
+def judge(run, cases, outs, codes, fails, oracle, value_codes=(1, 2, 3), corr_codes=(4, 5, 6), skip_regions=False, sig_of=None):
     """Standard verdicts for a differential run against the reference interpreter.
     code = verdict + 100 * region; a failure inside the region of an open finding is attributed to it."""
     for f in fails:
@@ -86,6 +86,8 @@ def judge(run, cases, outs, codes, fails, oracle, value_codes=(1, 2, 3), corr_co
             # NewTuple's unchecked .(Number) assertion on a sugar-shaped tuple: the model may reach another error of the
             # same expression first (it visits members in canonical order), so the region test cannot see this one
             region, sig = 3, REGION_SIGS[3]
+        if not sig and sig_of is not None:
+            sig = sig_of(c)       # a region the property's own generator decides on the case (computed, never a list of inputs)
         if region and skip_regions:
             continue      # inside the region of a finding that belongs to another property
         rec = {"case": {"label": c.get("label"), "src": c["src"], "coq": c["coq"]}, "observed": outs.get(c["id"]),
